@@ -64,34 +64,37 @@ func (f *Uniq) Call(s *slip.Scope, args slip.List, depth int) slip.Object {
 				}
 				continue
 			}
-			arg, target = slip.NormalizeNumber(args[pos], target)
+			// Normalize into a separate variable so target keeps its own type
+			// and value for the remaining comparisons.
+			var nt slip.Object
+			arg, nt = slip.NormalizeNumber(args[pos], target)
 			switch ta := arg.(type) {
 			case slip.Fixnum:
-				if target.(slip.Fixnum) == ta {
+				if nt.(slip.Fixnum) == ta {
 					return nil
 				}
 			case slip.SingleFloat:
-				if target.(slip.SingleFloat) == ta {
+				if nt.(slip.SingleFloat) == ta {
 					return nil
 				}
 			case slip.DoubleFloat:
-				if target.(slip.DoubleFloat) == ta {
+				if nt.(slip.DoubleFloat) == ta {
 					return nil
 				}
 			case *slip.LongFloat:
-				if (*big.Float)(target.(*slip.LongFloat)).Cmp((*big.Float)(ta)) == 0 {
+				if (*big.Float)(nt.(*slip.LongFloat)).Cmp((*big.Float)(ta)) == 0 {
 					return nil
 				}
 			case *slip.Bignum:
-				if (*big.Int)(target.(*slip.Bignum)).Cmp((*big.Int)(ta)) == 0 {
+				if (*big.Int)(nt.(*slip.Bignum)).Cmp((*big.Int)(ta)) == 0 {
 					return nil
 				}
 			case *slip.Ratio:
-				if (*big.Rat)(target.(*slip.Ratio)).Cmp((*big.Rat)(ta)) == 0 {
+				if (*big.Rat)(nt.(*slip.Ratio)).Cmp((*big.Rat)(ta)) == 0 {
 					return nil
 				}
 			case slip.Complex:
-				if complex128(target.(slip.Complex)) == complex128(ta) {
+				if complex128(nt.(slip.Complex)) == complex128(ta) {
 					return nil
 				}
 			}
